@@ -117,6 +117,11 @@ def mutate(src, site):
     return text, desc
 
 
+def _new(chk):
+    from spverif.report import new_violations
+    return new_violations(chk)
+
+
 def evaluate(job):
     rel, text, desc, kind = job
     fired = {}
@@ -124,7 +129,7 @@ def evaluate(job):
     for p in PROPS:
         code, chk = run_property(p, "quick", overlay={rel: text}, write=False, out=lambda *_: None)
         if code == 1:
-            fired[p] = sorted({v.rule for v in chk.violations()})
+            fired[p] = sorted({v.rule for v in _new(chk)})
         elif code == 2:
             indet.append(p)
     return {"file": rel, "mutation": desc, "kind": kind, "fired": fired, "indeterminate": indet}
